@@ -261,7 +261,13 @@ func execC14(t *trace.Trace, dir string) *harness.RunResult {
 			copy(b[:], rc.HeapID[:])
 			got[rc.NameHash] = append(got[rc.NameHash], binary.LittleEndian.Uint64(b[:]))
 		}
-		for h, ws := range want {
+		hs := make([]uint32, 0, len(want))
+		for h := range want {
+			hs = append(hs, h)
+		}
+		sort.Slice(hs, func(i, j int) bool { return hs[i] < hs[j] })
+		for _, h := range hs {
+			ws := want[h]
 			gs := got[h]
 			sort.Slice(ws, func(i, j int) bool { return ws[i] < ws[j] })
 			sort.Slice(gs, func(i, j int) bool { return gs[i] < gs[j] })
@@ -766,7 +772,13 @@ func execC15(t *trace.Trace, dir string) *harness.RunResult {
 			}
 			// the read-only heap reader on the same bytes
 			if ro, rerr := structures.OpenFractalHeap(e.fw, heapAddr, 8, 8, binary.LittleEndian); rerr == nil {
-				for k, o := range live {
+				lk := make([]int, 0, len(live))
+				for k := range live {
+					lk = append(lk, k)
+				}
+				sort.Ints(lk)
+				for _, k := range lk {
+					o := live[k]
 					got, gerr := ro.ReadObject(o.id)
 					if gerr == nil && !bytes.Equal(got, o.data) {
 						e.violate("read-only-reader", "wrong-bytes"+ctx(), fmt.Sprintf("object %d differs through FractalHeap.ReadObject", k))
